@@ -129,7 +129,12 @@ def gen_body(rng, isa, arch, kind):
         for _ in range(rng.randrange(1, 3)):
             body.insert(rng.randrange(len(body) + 1), P[rng.choice(lt)] if lt else rng.choice(UNKNOWN[isa]))
     elif kind == "long":
-        body = [P[rng.choice(known)] for _ in range(rng.randrange(101, 112))]
+        body = [P[rng.choice(known)] for _ in range(rng.choice([100, 101, 101, 104, 110]))]   # 100: no warning yet
+    elif kind == "fallback":
+        # AArch64 lines without any register spelling detect_ISA counts: detected as x86 (0 : 0), the x86 parser rejects
+        # them, inspect falls back to the other ISA's default model
+        quiet = [l for l in P if L.isa_counts(l) == (0, 0)] or ["fadd d1, d2, d3", "fmul d5, d4, d1", "ldr d4, [sp]"]
+        return [rng.choice(quiet) for _ in range(rng.randrange(2, 7))]
     else:
         raise ValueError(kind)
     # zero-pressure noise lines
@@ -168,11 +173,19 @@ def generated_cases(rng, tier, n):
     for c in range(n):
         isa = "x86" if c % 2 == 0 else "aarch64"
         arch = rng.choice(archs_for(isa, tier))
-        kind = KINDS[c % len(KINDS)] if c >= 2 else "long"
+        kind = KINDS[c % len(KINDS)] if c >= 4 else ["long", "long", "long", "fallback"][c]
+        if kind == "fallback":
+            isa = "aarch64"
         body = gen_body(rng, isa, arch, kind)
+        if kind == "long" and c < 2:
+            body = [l for l in body if not (l.startswith(".") or l.startswith("#") or l.startswith("//"))][:100 + c]
+            body += [body[0]] * (100 + c - len(body))       # exactly 100 / 101 parsed lines
         mode = rng.choice(["plain", "plain", "marked", "lines"])
         if kind == "long":
-            mode = ["plain", "marked", "lines", "plain"][c % 4]
+            mode = ["plain", "plain", "marked", "plain"][c % 4]
+        if kind == "fallback":
+            out.append(mk("gen:fallback/plain/default/%d" % c, "\n".join(body) + "\n", None, isa, rng.random() < 0.5, True, kind=kind))
+            continue
         text, lines, marked = wrap(rng, isa, body, mode)
         fixed = rng.random() < 0.5
         use_arch = arch if (rng.random() < 0.85 or kind in ("sum10", "sum100", "ltonly")) else None
@@ -182,5 +195,5 @@ def generated_cases(rng, tier, n):
                 out.append(mk(name + ("/ign" if ign else ""), text, use_arch, isa, fixed, ign, lines, marked, kind=kind))
         else:
             out.append(mk(name, text, use_arch, isa, fixed, rng.random() < 0.3, lines, marked,
-                          lcd_timeout=(2 if len(body) > 60 else 10), kind=kind))
+                          lcd_timeout=((0 if c == 2 else 2) if len(body) > 60 else 10), kind=kind))
     return out
